@@ -1389,6 +1389,24 @@ func (vc *VC) implementsTerm(st *State, v Val, iface types.Type) string {
 	if first {
 		// facts for all known in-package types
 		it := iface.Underlying().(*types.Interface)
+		sealed := false
+		for k := 0; k < it.NumMethods(); k++ {
+			if !it.Method(k).Exported() {
+				sealed = true
+			}
+		}
+		var impls []string
+		defer func() {
+			if sealed {
+				// an interface with an unexported method can only be implemented inside the package (closed world)
+				body := "false"
+				if len(impls) > 0 {
+					body = "(or false " + strings.Join(impls, " ") + ")"
+				}
+				vc.addAxiom(fmt.Sprintf("(forall ((t_i Int)) (! (=> (%s t_i) %s) :pattern ((%s t_i))))", name, body, name))
+				vc.assumptionsUsed["sealed interface "+types.TypeString(iface, func(p *types.Package) string { return "" })+": only in-package types implement it (types outside the package that embed an implementer are not considered)"] = true
+			}
+		}()
 		for _, nt := range vc.eng.namedTypes {
 			for _, cand := range []types.Type{nt, types.NewPointer(nt)} {
 				if types.IsInterface(cand) {
@@ -1396,6 +1414,7 @@ func (vc *VC) implementsTerm(st *State, v Val, iface types.Type) string {
 				}
 				tid := vc.eng.sorts.tid(cand)
 				if types.Implements(cand, it) {
+					impls = append(impls, fmt.Sprintf("(= t_i %d)", tid))
 					vc.addAxiom(fmt.Sprintf("(%s %d)", name, tid))
 				} else {
 					vc.addAxiom(fmt.Sprintf("(not (%s %d))", name, tid))
